@@ -86,6 +86,9 @@ func (env *Env) pureIf(x *ast.IfStmt, rest []ast.Stmt, ind string) (string, erro
 	if err != nil {
 		return "", err
 	}
+	if env.Types == nil {
+		return "let " + tuple(vars) + " := " + e + "\n" + ind + k, nil
+	}
 	return "let " + tuple(vars) + " := (" + e + " : " + strings.Join(tys, " × ") + ")\n" + ind + k, nil
 }
 
